@@ -2,3 +2,4 @@
    and Props/C07Loci.lean (pair tables over loci, rotate_pairtable_loc, connectivity). -/
 import DsdVerif.Props.C07Rot
 import DsdVerif.Props.C07Loci
+import DsdVerif.Props.PyExprs
